@@ -225,7 +225,7 @@ func init() {
 		floors = append(floors, "pairs_"+k)
 	}
 	otherChecks["C13"] = func(tier string, seed uint64) int {
-		spec := checkSpec{Prop: "C13", Level: "exploration", NQuick: 240, NThorough: 4000,
+		spec := checkSpec{Prop: "C13", Level: "exploration", NQuick: 400, NThorough: 12000,
 			Rule:   fmt.Sprintf("case i is a pair of kind i mod %d from %v: one generated project written in two encodings of the same content (values restricted to what both encodings can carry exactly; the crop pairs cycle through every shipped annual main crop file, the converter pair runs the real cropfileconverter binary), both run through the real model, all result files compared byte for byte (12 significant digits of crop, water, N and temperature state per day; date text columns rewritten to ISO only for the date-format pairs); non-trivial = both runs completed > 30 days", len(c13Kinds), c13Kinds),
 			Floors: floors}
 		return runSimCheck(spec, tier, seed)
